@@ -466,6 +466,7 @@ func init() {
 		ID:    "C15",
 		Level: "exploration",
 		Rule: "seeded histories of admissions (deposits of 4 assets incl. a new one, transfers, membership carriers), poisonings (a one-time key bound to a foreign owner), asset-info clashes, snapshot writes of 1-6 (thorough: up to 255) members on 7 chains, re-inclusion of finalized transactions in other chains' snapshots after their output was locked, and restarts; " +
+			"chains carry skewed clocks in 60% of the runs (a later-written snapshot may be stamped earlier); in half of the runs a quarter of the writes are stopped right before their 1st/2nd/3rd Badger commit and the store reopened (durable state must be nothing or the complete effect); " +
 			"every write is judged by a full before/after dump against an effect model per key class; non-trivial = at least one successful and one failing snapshot write; distinct = canonical-log digests",
 		Components: r3Components,
 		Assume:     r3Assume,
